@@ -228,6 +228,29 @@ pub fn drive_corpus(corpus: &str, seed: u64, thorough: bool, w: &mut NdWriter) -
   let per_file_ctx = if thorough { 60 } else { 12 };
   let (mut n_cut, mut n_near, mut n_self, mut n_broken, mut n_zero, mut n_ctx) = (0, 0, 0, 0, 0, 0);
   let mut langs = std::collections::BTreeSet::new();
+  // one text that is code in many languages, matched by itself and by patterns cut from it, language after language on
+  // this one thread: what was compiled for one language must not reach the next (same pattern TEXT, other grammar)
+  for round in 0..2 {
+    let shared = [SupportLang::JavaScript, SupportLang::Python, SupportLang::Ruby, SupportLang::Lua, SupportLang::TypeScript, SupportLang::Kotlin,
+                  SupportLang::Swift, SupportLang::Go, SupportLang::Tsx, SupportLang::Php];
+    let order: Vec<SupportLang> = if round == 0 { shared.to_vec() } else { shared.iter().rev().cloned().collect() };
+    for l in order {
+      let src = if l == SupportLang::Php { "<?php foo(a, b, c);\n" } else if l == SupportLang::Go { "package m\nfunc f() { foo(a, b, c) }\n" } else { "foo(a, b, c)\n" };
+      let g = l.ast_grep(src);
+      let Some(site) = all_nodes(&g).into_iter().filter(|n| n.text() == "foo(a, b, c)" && n.is_named()).last() else { continue };
+      if let Some(r) = match_record(&format!("shared-{}-{round}#self", util::lang_name(l)), l, "foo(a, b, c)", &site,
+        json!({"mode": "cut", "holes": [], "tail": {"name": "", "ids": []}})) {
+        w.put(&r);
+        n_self += 1;
+      }
+      for (k, pat) in ["foo($X, b, $Y)", "$F(a, $$$REST)", "foo(a, /* c */ b, c)"].iter().enumerate() {
+        if let Some(r) = match_record(&format!("shared-{}-{round}#near{k}", util::lang_name(l)), l, pat, &site, json!({"mode": "near"})) {
+          w.put(&r);
+          n_near += 1;
+        }
+      }
+    }
+  }
   for (l, path, text) in util::corpus(corpus) {
     let g = l.ast_grep(&text);
     let sites = cut_sites(&g, 70);
